@@ -39,13 +39,18 @@ def zfam(rng, fam, n):
         return 10.0 ** rng.uniform(0, 15, size=n) * np.exp(1j * rng.uniform(np.pi / 2, 3 * np.pi / 2, size=n))
     if fam == "zeros":
         return np.zeros(n, complex)
+    if fam == "contour_nodes":      # |z| = r on the nodes of the documented contour (left half plane): see known finding F9
+        from rv.refmodel import phi as P
+        nodes = -P.roots(16)
+        nodes = nodes[nodes.real <= 0]
+        return np.tile(nodes, int(np.ceil(n / len(nodes))))[:n].astype(complex)
     raise KeyError(fam)
 
 
 def cases(tier, seed):
     out = []
     for order in (1, 2, 3, 4):
-        for fam in ("real_stiff", "real_small", "imag", "lhp_stiff", "zeros"):
+        for fam in ("real_stiff", "real_small", "imag", "lhp_stiff", "zeros", "contour_nodes"):
             for x64 in (True, False):
                 for rep in range(1 if tier == "quick" else 3):
                     out.append(dict(kind="coef", order=order, fam=fam, x64=x64, rs=[seed, env.crc(fam), order, int(x64), rep], cost=1))
@@ -83,11 +88,11 @@ def run_coef(case, bus, ex):
                 if str(a.dtype) not in (want, "float64" if x64 else "float32"):
                     bad.append((nm, "dtype " + str(a.dtype)))
         bus.judge("coef_finite", float(len(bad)), 0.5, (order, fam, "x64" if x64 else "f32", dt == 1.0), sample=dict(order=order, family=fam, dt=dt, zmax=float(np.max(np.abs(z)))),
-                  witness=dict(order=order, family=fam, dt=dt, bad=[(a, str(b)) for a, b in bad]), nontrivial=float(np.max(np.abs(z))) >= 1e6 or fam in ("zeros", "real_small"))
+                  witness=dict(order=order, family=fam, dt=dt, bad=[(a, str(b)) for a, b in bad], on_contour_node=(fam == "contour_nodes")), nontrivial=float(np.max(np.abs(z))) >= 1e6 or fam in ("zeros", "real_small"))
         # and a step through it stays finite
         u_hat = jnp.asarray((rng.normal(size=(1, n)) + 1j * rng.normal(size=(1, n))).astype(cd))
         o = np.asarray(integ.step_fourier(u_hat))
-        bus.judge("coef_finite", 0.0 if np.all(np.isfinite(o)) else 1.0, 0.5, (order, fam, "x64" if x64 else "f32", "step"), witness=dict(order=order, family=fam, dt=dt))
+        bus.judge("coef_finite", 0.0 if np.all(np.isfinite(o)) else 1.0, 0.5, (order, fam, "x64" if x64 else "f32", "step"), witness=dict(order=order, family=fam, dt=dt, on_contour_node=(fam == "contour_nodes")))
 
 
 def run_cls(case, bus, ex):
@@ -175,3 +180,10 @@ def run_stiff(case, bus, ex):
 
 def run_case(case, bus, ex):
     return {"coef": run_coef, "cls": run_cls, "stiff": run_stiff}[case["kind"]](case, bus, ex)
+
+
+def classify(v):
+    w = v.get("witness") or {}
+    if v["monitor"] == "coef_finite" and w.get("on_contour_node"):
+        return "F9-contour-node-breakdown"
+    return None
